@@ -254,9 +254,19 @@ func classOf(pool int) string {
 	return "small"
 }
 
-// RunA executes one scenario of part A on the real store. fullPrime makes the
-// 298-event priming height part of every verification point (otherwise it is
-// verified once, at the end).
+// RunA executes one scenario of part A on the real store.
+//
+// Verification protocol: right after every commit that is not the last one the
+// height just committed is loaded and compared (and once more after the
+// restart that follows it, in mode "L"); after the last commit, and again
+// after the restart that follows it, EVERY committed height is loaded and
+// compared. Every prefix of a scenario (same menu indexes, same restart bits,
+// same mode) is itself an enumerated scenario with exactly the same call
+// history up to its end, so every commit point of every scenario has all of
+// its heights verified - in the scenario that ends there.
+//
+// For pool class 300 the 8-event sentinel priming height counts as a committed
+// height; the 298-event priming height is included when fullPrime is set.
 func RunA(sc ScenarioA, fullPrime bool) *Result {
 	out := &Result{}
 	r := &run{class: classOf(sc.Pool), out: out}
@@ -277,16 +287,19 @@ func RunA(sc ScenarioA, fullPrime bool) *Result {
 		if !r.commit(HeightsA[pos], Menu[m], Pool{Class: sc.Pool, Pos: pos}) {
 			return out
 		}
-		r.verifyAll(fullPrime)
+		if pos == last {
+			r.verifyAll(fullPrime)
+		} else {
+			r.verify(&r.commits[len(r.commits)-1])
+		}
 		if sc.Mask&(1<<uint(pos)) != 0 {
 			r.restart()
-			if sc.Mode != "C" || pos == last {
+			if pos == last {
 				r.verifyAll(fullPrime)
+			} else if sc.Mode != "C" {
+				r.verify(&r.commits[len(r.commits)-1])
 			}
 		}
-	}
-	if !fullPrime && sc.Pool == 300 {
-		r.verify(&r.commits[0])
 	}
 	r.verifyUnused(UnusedHeight)
 	return out
@@ -316,8 +329,10 @@ var coinsB = []uint64{0, 1, MaxU32}
 // height 20, 65531..NKeys at height 30 (so the keys around number 65536 sit in
 // a small batch of their own), and at height 40 a batch that uses old and new
 // keys again. Key number n (1-based) is first used by an event of type
-// (n-1) mod 7 of {reward, slash, jail, unbond, kick, move, removeCandidate};
-// every event that has an address takes a fresh one; unlock / expired-order
+// (n-1) mod 6 of {reward, slash, jail, unbond, kick, move} (the types whose
+// keys go through the id table; a removeCandidate event, which is stored with
+// its key inline, follows for every 11th key); every event that has an
+// address takes a fresh one; unlock / expired-order
 // events with further fresh addresses fill up to NAddrs. Unbond events without
 // a key are sprinkled in (a nil key is stored as id 0).
 func PlanB(p ParamsB) (batches [4][]Spec, keysAfter [4]int) {
@@ -332,9 +347,9 @@ func PlanB(p ParamsB) (batches [4][]Spec, keysAfter [4]int) {
 		if i%4 == 3 {
 			co = uint64(i) + 2
 		}
-		switch i % 7 {
+		switch i % 6 {
 		case 0:
-			return Spec{Kind: KReward, Role: []string{"Validator", "Delegator", "DAO", "Developers"}[(i/7)%4], A: next(), K: i, Amount: am, Coin: co}
+			return Spec{Kind: KReward, Role: []string{"Validator", "Delegator", "DAO", "Developers"}[(i/6)%4], A: next(), K: i, Amount: am, Coin: co}
 		case 1:
 			return Spec{Kind: KSlash, A: next(), K: i, Amount: am, Coin: co}
 		case 2:
@@ -343,10 +358,8 @@ func PlanB(p ParamsB) (batches [4][]Spec, keysAfter [4]int) {
 			return Spec{Kind: KUnbond, A: next(), K: i, Amount: am, Coin: co}
 		case 4:
 			return Spec{Kind: KKick, A: next(), K: i, Amount: am, Coin: co}
-		case 5:
-			return Spec{Kind: KMove, A: next(), K: i, K2: i / 2, Amount: am, Coin: co}
 		}
-		return Spec{Kind: KRemove, K: i}
+		return Spec{Kind: KMove, A: next(), K: i, K2: i / 2, Amount: am, Coin: co}
 	}
 	segs := [3][2]int{{0, 30000}, {30000, 65530}, {65530, p.NKeys}}
 	for s, seg := range segs {
@@ -355,6 +368,9 @@ func PlanB(p ParamsB) (batches [4][]Spec, keysAfter [4]int) {
 		}
 		for i := seg[0]; i < seg[1]; i++ {
 			batches[s] = append(batches[s], keyEvent(i))
+			if i%11 == 0 { // removals are stored without going through the id table, so they reuse a key
+				batches[s] = append(batches[s], Spec{Kind: KRemove, K: i})
+			}
 		}
 		keysAfter[s] = seg[1]
 	}
